@@ -522,6 +522,10 @@ fn digraph_enumeration(ctx: &mut Ctx, prop: &'static str, classes: &'static [&'s
         case.subdirs = r.gen_bool(0.25);
         case.no_tail = r.gen_bool(0.3);
         case.spaced = r.gen_bool(0.15);
+        if case.input_style == 0 && !case.subdirs && r.gen_bool(0.3) {
+            // dependencies that live outside the base directory
+            case.outside = true;
+        }
         let cyclic = !case.graph().is_acyclic();
         sampled_schedules(ctx, prop, classes, &case, &mut r, 3, if cyclic_only_nontrivial { cyclic } else { true });
     }
